@@ -3,6 +3,7 @@ package c16
 import (
 	"bytes"
 	"crypto"
+	"crypto/elliptic"
 	"fmt"
 	"strings"
 
@@ -89,6 +90,8 @@ type builtEnv struct {
 	psk     []byte
 	signer  *ee
 	w       *world
+	alt     []byte        // staged overwrite "P1": what the caller's content buffer held after the constructor returned
+	sess    *tallySession // the caller-provided Session the message was built with (nil: default)
 }
 
 func genEnv(r *mon.Rand, api string, ci, n int) envSpec {
@@ -124,54 +127,221 @@ func genEnv(r *mon.Rand, api string, ci, n int) envSpec {
 	return s
 }
 
+// bufPlan fixes what buildEnv / buildSigned otherwise draw: the shape of the caller's content buffer, when the caller
+// overwrites that buffer, and which of two equivalent routes produces the message.
+type bufPlan struct {
+	shape   bufShape
+	stage   string // "": overwrite after the last call only | "P1": also right after the constructor | "P2": also after the last AddSigner / AddRecipient, before Finish
+	builder bool   // Encrypt family: NewEnvelopedData / AddRecipient / Finish instead of the one-shot function
+	session bool   // builder: New*EnvelopedDataWithSession with a caller-provided Session; readers then use ParseWithSession
+}
+
+// tallySession is a caller-provided Session: the default behaviour, call counts, and a data key that lives in a
+// buffer with dirty spare capacity.
+type tallySession struct {
+	inner         pkcs7.DefaultSession
+	gen, enc, dec int
+}
+
+func (t *tallySession) GenerateDataKey(size int) ([]byte, error) {
+	t.gen++
+	k, err := t.inner.GenerateDataKey(size)
+	if err != nil {
+		return nil, err
+	}
+	buf := make([]byte, size+24)
+	for i := range buf {
+		buf[i] = 0xc3
+	}
+	copy(buf, k)
+	return buf[:size], nil
+}
+
+func (t *tallySession) EncryptdDataKey(key []byte, cert *smx509.Certificate, opts any) ([]byte, error) {
+	t.enc++
+	return t.inner.EncryptdDataKey(key, cert, opts)
+}
+
+func (t *tallySession) DecryptDataKey(key []byte, priv crypto.PrivateKey, cert *smx509.Certificate, opts any) ([]byte, error) {
+	t.dec++
+	return t.inner.DecryptDataKey(key, priv, cert, opts)
+}
+
 func buildEnv(c *mon.Case, w *world, s envSpec) (*builtEnv, error) {
+	return buildEnvPlan(c, w, s, nil)
+}
+
+// padLikeTail gives the content an ending that a padding remover could mistake for padding: k bytes of value k
+// (PKCS#7; k = 1 .. block, also a whole block), 0x80 00.. (ISO 7816-4), zeros, or a pad byte beyond the block length.
+// Content that is a whole number of blocks with such a tail is where "is this padded?" heuristics go wrong.
+func padLikeTail(r *mon.Rand, content []byte, block int) {
+	n := len(content)
+	if n == 0 {
+		return
+	}
+	switch r.Intn(6) {
+	case 0:
+		content[n-1] = 1
+	case 1, 2:
+		k := r.Range(1, block)
+		if r.Intn(3) == 0 {
+			k = block
+		}
+		if k > n {
+			k = n
+		}
+		for i := n - k; i < n; i++ {
+			content[i] = byte(k)
+		}
+	case 3:
+		k := r.Range(1, min(block, n))
+		content[n-k] = 0x80
+		for i := n - k + 1; i < n; i++ {
+			content[i] = 0
+		}
+	case 4:
+		k := r.Range(1, min(block, n))
+		for i := n - k; i < n; i++ {
+			content[i] = 0
+		}
+	default:
+		content[n-1] = byte(block + 1 + r.Intn(8)) // a "pad length" beyond the block
+	}
+}
+
+func buildEnvPlan(c *mon.Case, w *world, s envSpec, plan *bufPlan) (*builtEnv, error) {
 	b := &builtEnv{spec: s, w: w, content: c.R.Bytes(s.n)}
 	ci := contentCiphers[s.ci]
+	if c.R.Intn(3) == 0 {
+		padLikeTail(c.R, b.content, ci.block)
+		c.Event("content/padding_like_tail", 1)
+		if s.n%ci.block == 0 && s.n > 0 {
+			c.Event("content/padding_like_tail_on_whole_blocks/"+ci.name, 1)
+		}
+	}
 	var certs []*smx509.Certificate
 	for i, k := range s.rcpt {
-		e, err := w.newEE(c.R, k, s.riss[i], eeOpt{ski: s.bySKI() || c.R.Intn(3) == 0})
+		o := eeOpt{ski: s.bySKI() || c.R.Intn(3) == 0}
+		if s.bySKI() && c.R.Intn(2) == 0 {
+			o.ski1 = true // the key identifier RFC 5280 4.2.1.2 (1) derives from the key: a certificate without the extension names the same recipient
+		}
+		e, err := w.newEE(c.R, k, s.riss[i], o)
 		if err != nil {
 			return nil, err
 		}
 		b.rcpts = append(b.rcpts, e)
 		certs = append(certs, e.cert)
 	}
+	// the library sees the content (and the pre-shared key) in a caller buffer of a chosen shape; b.content / b.psk
+	// stay private copies of the original values and are what every later comparison uses
+	var hc *held
+	stage := ""
+	if plan != nil {
+		hc = hold(c, "content", b.content, plan.shape)
+		stage = plan.stage
+	} else {
+		hc = hold(c, "content", b.content, anyShape(c.R, s.n, ci.block))
+		if c.R.Bool() {
+			stage = "P2"
+		}
+	}
+	atStage := func(st, after string) {
+		if stage != st {
+			return
+		}
+		hc.audit(after)
+		v := hc.scribble()
+		if st == "P1" {
+			b.alt = v
+		}
+	}
+	var hk *held
 	var err error
 	ok := c.Call(s.api, func() {
-		switch s.api {
-		case aEncrypt:
-			b.der, err = pkcs7.Encrypt(ci.c, b.content, certs)
-		case aEncryptSM:
-			b.der, err = pkcs7.EncryptSM(ci.c, b.content, certs)
-		case aEncryptCFCA:
-			b.der, err = pkcs7.EncryptCFCA(ci.c, b.content, certs)
-		case aEnvelopeCFCA:
-			b.der, err = pkcs7.EnvelopeMessageCFCA(ci.c, b.content, certs)
-		case aCfcaEnv:
-			b.der, err = cfca.EnvelopeMessage(ci.c, b.content, certs)
-		case aCfcaLegacy:
-			b.der, err = cfca.EnvelopeMessageLegacy(ci.c, b.content, certs)
-		case aPSK, aPSKSM:
-			b.psk = c.R.Bytes(ci.c.KeySize())
-			if s.api == aPSK {
-				b.der, err = pkcs7.EncryptUsingPSK(ci.c, b.content, b.psk)
-			} else {
-				b.der, err = pkcs7.EncryptSMUsingPSK(ci.c, b.content, b.psk)
+		switch {
+		case plan != nil && plan.builder && !s.isPSK() && !s.isSignEnv():
+			var ed *pkcs7.EnvelopedData
+			if plan.session {
+				b.sess = &tallySession{}
 			}
-		case aSignEnv, aSignEnvSM:
+			switch {
+			case s.api == aEncrypt && plan.session:
+				ed, err = pkcs7.NewEnvelopedDataWithSession(ci.c, hc.s, b.sess)
+			case s.api == aEncrypt:
+				ed, err = pkcs7.NewEnvelopedData(ci.c, hc.s)
+			case plan.session:
+				ed, err = pkcs7.NewSM2EnvelopedDataWithSession(ci.c, hc.s, b.sess)
+			default:
+				ed, err = pkcs7.NewSM2EnvelopedData(ci.c, hc.s)
+			}
+			if err != nil {
+				return
+			}
+			hc.audit("NewEnvelopedData")
+			atStage("P1", "NewEnvelopedData")
+			version := map[string]int{aEncrypt: 0, aEncryptSM: 1, aEncryptCFCA: 1, aCfcaLegacy: 1, aEnvelopeCFCA: 2, aCfcaEnv: 2}[s.api]
+			var sess pkcs7.Session = pkcs7.DefaultSession{}
+			if b.sess != nil {
+				sess = b.sess
+			}
+			for _, rc := range certs {
+				err = ed.AddRecipient(rc, version, func(cert *smx509.Certificate, key []byte) ([]byte, error) {
+					var opts any
+					if s.api != aEncrypt {
+						opts = s.legacy()
+					}
+					return sess.EncryptdDataKey(key, cert, opts)
+				})
+				if err != nil {
+					return
+				}
+			}
+			atStage("P2", "EnvelopedData.AddRecipient")
+			var first []byte
+			if first, err = ed.Finish(); err != nil {
+				return
+			}
+			for i := range first { // the caller consumes and reuses the returned slice before the next call on the builder
+				first[i] ^= 0x5c
+			}
+			c.Event("buffers/returned_slice_overwritten_before_next_call", 1)
+			b.der, err = ed.Finish()
+		case s.api == aEncrypt:
+			b.der, err = pkcs7.Encrypt(ci.c, hc.s, certs)
+		case s.api == aEncryptSM:
+			b.der, err = pkcs7.EncryptSM(ci.c, hc.s, certs)
+		case s.api == aEncryptCFCA:
+			b.der, err = pkcs7.EncryptCFCA(ci.c, hc.s, certs)
+		case s.api == aEnvelopeCFCA:
+			b.der, err = pkcs7.EnvelopeMessageCFCA(ci.c, hc.s, certs)
+		case s.api == aCfcaEnv:
+			b.der, err = cfca.EnvelopeMessage(ci.c, hc.s, certs)
+		case s.api == aCfcaLegacy:
+			b.der, err = cfca.EnvelopeMessageLegacy(ci.c, hc.s, certs)
+		case s.isPSK():
+			b.psk = c.R.Bytes(ci.c.KeySize())
+			hk = hold(c, "pre-shared key", b.psk, anyShape(c.R, len(b.psk), 16))
+			if s.api == aPSK {
+				b.der, err = pkcs7.EncryptUsingPSK(ci.c, hc.s, hk.s)
+			} else {
+				b.der, err = pkcs7.EncryptSMUsingPSK(ci.c, hc.s, hk.s)
+			}
+		case s.isSignEnv():
 			b.signer, err = w.newEE(c.R, s.signer.kind, s.signer.iss, eeOpt{})
 			if err != nil {
 				return
 			}
 			var sed *pkcs7.SignedAndEnvelopedData
 			if s.api == aSignEnv {
-				sed, err = pkcs7.NewSignedAndEnvelopedData(b.content, ci.c)
+				sed, err = pkcs7.NewSignedAndEnvelopedData(hc.s, ci.c)
 			} else {
-				sed, err = pkcs7.NewSMSignedAndEnvelopedData(b.content, ci.c)
+				sed, err = pkcs7.NewSMSignedAndEnvelopedData(hc.s, ci.c)
 			}
 			if err != nil {
 				return
 			}
+			hc.audit("NewSignedAndEnvelopedData")
+			atStage("P1", "NewSignedAndEnvelopedData")
 			sed.SetDigestAlgorithm(digestOIDs[s.signer.digest])
 			if s.signer.chain && len(b.signer.parents) > 0 {
 				err = sed.AddSignerChain(b.signer.cert, b.signer.key, b.signer.parents)
@@ -184,10 +354,23 @@ func buildEnv(c *mon.Case, w *world, s envSpec) (*builtEnv, error) {
 			if err != nil {
 				return
 			}
+			hc.audit("SignedAndEnvelopedData.AddSigner")
 			for _, rc := range certs {
 				if err = sed.AddRecipient(rc); err != nil {
 					return
 				}
+			}
+			// nothing of the content is needed any more: a caller may reuse its buffer before Finish
+			atStage("P2", "SignedAndEnvelopedData.AddRecipient")
+			if plan != nil {
+				var first []byte
+				if first, err = sed.Finish(); err != nil {
+					return
+				}
+				for i := range first {
+					first[i] ^= 0x5c
+				}
+				c.Event("buffers/returned_slice_overwritten_before_next_call", 1)
 			}
 			b.der, err = sed.Finish()
 		}
@@ -195,7 +378,21 @@ func buildEnv(c *mon.Case, w *world, s envSpec) (*builtEnv, error) {
 	if !ok {
 		return nil, fmt.Errorf("panic")
 	}
+	hc.audit(apiStage(s.api))
+	hk.audit(apiStage(s.api))
+	if err == nil {
+		// the call has returned: the message must not depend on the caller's buffers any more
+		hc.scribble()
+		hk.scribble()
+	}
 	return b, err
+}
+
+func apiStage(api string) string {
+	if api == aSignEnv || api == aSignEnvSM {
+		return "SignedAndEnvelopedData.Finish"
+	}
+	return api
 }
 
 // open decrypts msg for (cert, key) through the entry point that belongs to the API
@@ -210,7 +407,11 @@ func (b *builtEnv) open(msg []byte, cert *smx509.Certificate, key crypto.Private
 		pt, err = cfca.OpenEnvelopedMessageLegacy(msg, cert, key)
 		return
 	}
-	p, err = pkcs7.Parse(msg)
+	if b.sess != nil {
+		p, err = pkcs7.ParseWithSession(b.sess, msg)
+	} else {
+		p, err = pkcs7.Parse(msg)
+	}
 	if err != nil {
 		return nil, nil, err
 	}
@@ -306,6 +507,37 @@ func roundTripEnv(c *mon.Case, b *builtEnv) bool {
 				c.Event("psk/wrong_key_garbage_without_error(unauthenticated_cipher)", 1)
 			}
 		}
+		// the recipient entry points on EncryptedData: there is no recipient, so nobody opens it that way
+		if x, err := b.w.newEE(c.R, kSM2, iSelf, eeOpt{ski: true}); err == nil {
+			if p, err := pkcs7.Parse(b.der); err == nil {
+				for _, how := range []string{"Decrypt", "DecryptCFCA", "DecryptAndVerify", "GetRecipients"} {
+					var pt []byte
+					var derr error
+					pi := mon.Try(func() {
+						switch how {
+						case "Decrypt":
+							pt, derr = p.Decrypt(x.cert, x.key)
+						case "DecryptCFCA":
+							pt, derr = p.DecryptCFCA(x.cert, x.key)
+						case "DecryptAndVerify":
+							pt, derr = p.DecryptAndVerify(x.cert, x.key, nil)
+						default:
+							var ris []pkcs7.RecipientInfo
+							if ris, derr = p.GetRecipients(); derr == nil && len(ris) == 0 {
+								derr = fmt.Errorf("no recipients")
+							}
+						}
+					})
+					c.Event("psk/recipient_entry_point_tried", 1)
+					switch {
+					case pi != nil:
+						c.Fail("panic", "%s on EncryptedData panics: %v; %v", how, pi.Value, s)
+					case derr == nil:
+						c.Fail("accept", "%s with a certificate and key on EncryptedData (no recipients) reports no error (returned %d bytes, the content: %v); %v", how, len(pt), bytes.Equal(pt, b.content), s)
+					}
+				}
+			}
+		}
 		return good
 	}
 	// each intended recipient
@@ -324,6 +556,30 @@ func roundTripEnv(c *mon.Case, b *builtEnv) bool {
 		}
 		if !bytes.Equal(pt, b.content) {
 			c.Fail("mismatch", "recipient %d gets %x, want %x; %v", i, pt, b.content, s)
+			good = false
+		}
+	}
+	// recipients named by key identifier: a certificate of the same key that carries no SubjectKeyIdentifier extension
+	// stands for the identifier derived from the key itself (RFC 5280 4.2.1.2 method 1), which is what the message
+	// names when the enveloping certificate carried exactly that identifier
+	for i, e := range b.rcpts {
+		if !e.ski1 || !s.bySKI() {
+			continue
+		}
+		twin, err := b.w.newEE(c.R, e.kind, e.issuer, eeOpt{reuseKey: e.key})
+		if err != nil {
+			c.Fail("reject", "cannot create twin certificate: %v", err)
+			break
+		}
+		var pt []byte
+		if !c.Call("open with a certificate without key identifier", func() { pt, _, err = b.open(b.der, twin.cert, e.decryptKey(), false) }) {
+			return false
+		}
+		c.Event("roundtrip/recipient_opens_with_certificate_without_SKI_extension", 1)
+		if err != nil || !bytes.Equal(pt, b.content) {
+			c.Detail("message", b.der)
+			c.Fail("reject", "recipient %d (%v) cannot open the message with another certificate of its key that has no SubjectKeyIdentifier extension (the message names the SHA-1 identifier of the key): err=%v plaintext=%x want %x; %v",
+				i, e, err, pt, b.content, s)
 			good = false
 		}
 	}
@@ -359,6 +615,19 @@ func roundTripEnv(c *mon.Case, b *builtEnv) bool {
 			}
 		}
 	}
+	if s.isSignEnv() && len(b.rcpts) > 1 {
+		// "for the only recipient": with several recipients the call may refuse; it must not hand out anything else
+		var pt []byte
+		var err error
+		pi := mon.Try(func() { pt, _, err = b.open(b.der, nil, b.rcpts[0].decryptKey(), true) })
+		c.Event("roundtrip/OnlyOne_with_several_recipients", 1)
+		switch {
+		case pi != nil:
+			c.Fail("panic", "DecryptAndVerifyOnlyOne on a message with %d recipients panics: %v; %v", len(b.rcpts), pi.Value, s)
+		case err == nil && !bytes.Equal(pt, b.content):
+			c.Fail("mismatch", "DecryptAndVerifyOnlyOne on a message with %d recipients returns %x without error, the content is %x; %v", len(b.rcpts), pt, b.content, s)
+		}
+	}
 	if !good {
 		return false
 	}
@@ -388,6 +657,18 @@ func roundTripEnv(c *mon.Case, b *builtEnv) bool {
 		attempt{"a certificate and key that are not among the recipients", stranger.cert, stranger.key},
 		attempt{"a recipient's certificate with another private key of the same kind", r0.cert, stranger.key},
 		attempt{"a non-recipient certificate with a recipient's private key", stranger.cert, r0.decryptKey()})
+	keyInUse := false // the RSA keys are fixed: "another" RSA key may be a recipient's, and a key identifier derived from it names that recipient
+	for _, e := range b.rcpts {
+		if e.kind.isRSA() && e.kind == otherKind(r0.kind) {
+			keyInUse = true
+		}
+	}
+	if s.bySKI() && !keyInUse { // drives the derived-identifier comparison with a key that is not a recipient's
+		if x, err := b.w.newEE(c.R, otherKind(r0.kind), r0.issuer, eeOpt{}); err == nil {
+			tries = append(tries, attempt{"a non-recipient certificate without SubjectKeyIdentifier extension and its key", x.cert, x.key},
+				attempt{"a non-recipient certificate without SubjectKeyIdentifier extension with a recipient's private key", x.cert, r0.decryptKey()})
+		}
+	}
 	if imp, err := b.w.newEE(c.R, otherKind(r0.kind), r0.issuer, eeOpt{sameAs: r0.cert}); err == nil {
 		tries = append(tries, attempt{"an impostor certificate (same issuer, serial number and key identifier as a recipient) with its own key", imp.cert, imp.key})
 	}
@@ -400,6 +681,8 @@ func roundTripEnv(c *mon.Case, b *builtEnv) bool {
 			tries = append(tries, attempt{"a recipient's certificate with a private key of another algorithm", r0.cert, x.key})
 		}
 	}
+	// a key object that cannot decrypt at all
+	tries = append(tries, attempt{"a recipient's certificate with an ECDSA P-256 private key (not a decryption key)", r0.cert, ecKeyFrom(c.R, elliptic.P256())})
 	if len(b.rcpts) > 1 {
 		r1 := b.rcpts[0]
 		if r1 == r0 {
@@ -411,6 +694,21 @@ func roundTripEnv(c *mon.Case, b *builtEnv) bool {
 		}
 		if !same {
 			tries = append(tries, attempt{"a recipient's certificate with a different recipient's private key", r0.cert, r1.decryptKey()})
+		}
+	}
+	// the entry point for pre-shared keys on a message that has recipients: no key is "the" key
+	if p, err := pkcs7.Parse(b.der); err == nil {
+		var pt []byte
+		var derr error
+		pi := mon.Try(func() { pt, derr = p.DecryptUsingPSK(c.R.Bytes(ci.c.KeySize())) })
+		c.Event("nonrecipient/tried", 1)
+		switch {
+		case pi != nil:
+			c.Fail("panic", "DecryptUsingPSK on a message with recipients panics: %v; %v", pi.Value, s)
+		case derr != nil:
+			c.Event("nonrecipient/error", 1)
+		default:
+			c.Fail("accept", "DecryptUsingPSK with a random key on a message with recipients reports no error (returned %d bytes, the content: %v); %v", len(pt), bytes.Equal(pt, b.content), s)
 		}
 	}
 	for _, t := range tries {
